@@ -22,7 +22,7 @@ CHECKS = {
                 text=EXPL + " One-directional oracle (success => equals reference content).",
                 note=TRUST + " Corruption patterns limited to the mutation grammar; hash collisions out of scope."),
     "C03": dict(level="exploration",
-                technique="sanitizer monitoring (ASan+UBSan, signals, CPU-time bound) of the public API (random op programs) and all command-line tools on re-sealed hostile headers, raw mutations and libFuzzer-generated inputs",
+                technique="sanitizer monitoring (ASan+UBSan, signals, CPU-time bound) of the public API (random op programs) and all command-line tools on re-sealed hostile headers, raw mutations and libFuzzer-generated inputs; valgrind memcheck on the uninstrumented build for a sample (accesses made inside libzstd/libcrypto)",
                 text=EXPL + " A clean sanitizer run is not memory safety: red-zone tools miss far and intra-object overflows.",
                 note="Counts ASan/UBSan reports, fatal signals and CPU-bound overruns (DESIGN 3.1, 3.3); nonnull-attribute and leaks not counted."),
     "C04": dict(level="exploration",
@@ -34,7 +34,7 @@ CHECKS = {
                 text=EXPL + " The 1- and 2-cut fragmentation spaces of the small responses are enumerated completely.",
                 note=TRUST + " Response shapes limited to the grammar in DESIGN 5 C05."),
     "C06": dict(level="exploration",
-                technique="exhaustive single-byte mutation of the header region (every position x every other value) of sample files through the real open path under ASan; independent header checksum recomputation with hashlib",
+                technique="exhaustive single-byte mutation of the header region (every position x every other value) of sample files through the real open paths (zck_init_read; lead+header step by step; pinned to the genuine checksum) under ASan; patched images incl. non-minimal re-encodings of every integer; independent header checksum recomputation with hashlib",
                 text="Every single-byte substitution of every header byte of each sample file is executed (exhaustive over that finite space); insertions/deletions and digest transplants sampled. Right level: the property is a statement about each header byte.",
                 note="Independent checksum from Python hashlib; sample files cover the 4 lead checksum types, flags, dict/no dict, detached headers."),
     "C07": dict(level="exploration",
@@ -74,7 +74,7 @@ CHECKS = {
                 text=EXPL,
                 note=TRUST),
     "C16": dict(level="exploration",
-                technique="runtime differential monitoring of the writer: byte equality of outputs across write-call segmentations and fresh processes; chunk tables of edited inputs compared (prefix/suffix locality); automatic chunk sizes vs effective bounds read from the writer context",
+                technique="runtime differential monitoring of the writer: byte equality of outputs across write-call segmentations and fresh processes; chunk tables of edited inputs compared (prefix/suffix locality); automatic chunk sizes vs effective bounds read from the writer context; workloads include contents with crafted rolling-hash hits (built from the tree's buzhash table) and the zck tool fed through a regular file, a FIFO with controlled read() sizes and shifted contents",
                 text=EXPL,
                 note=TRUST),
     "C17": dict(level="exploration",
@@ -86,7 +86,7 @@ CHECKS = {
                 text=EXPL + " Message lengths 0..520 x 4 types are enumerated completely for whole/1-byte/every-split segmentations.",
                 note="Third party: Python hashlib."),
     "C19": dict(level="exploration",
-                technique="ThreadSanitizer (happens-before race detection) over multi-threaded workloads on distinct contexts, reports filtered to library frames; per-thread outputs compared with a serial run",
+                technique="ThreadSanitizer (happens-before race detection) over multi-threaded workloads on distinct contexts (write, read, validate, random access, copy, pinned opens, single-range and multipart downloads through the callbacks, process-wide log callback), reports filtered to library frames; per-thread return-value/fingerprint logs compared with a serial run of the same programs",
                 text="Held on the interleavings executed; TSan reports an unsynchronised conflicting pair whenever both accesses execute, so reach comes from every scenario pair being co-scheduled.",
                 note="TSan only sees instrumented code (library + harness); OpenSSL/zstd internals uninstrumented."),
     "C20": dict(level="exploration",
